@@ -131,7 +131,7 @@ func runModelCheck(c *Ctx, spec modelSpec) *orch.Outcome {
 	o.Rule = spec.Rule
 	o.Assumptions = append([]string{
 		"one-step oracle: the reference rules are re-based on the OBSERVED previous state at every block; OPR/SPR grading verdicts are taken from the pegnet grader library called directly on the same entries",
-		"compressed eras (mainnet order and equalities), averaging window 12 unless stated",
+		"compressed eras (mainnet order and equalities), averaging window 12 (thorough tier: 6, 8, 12, 16 and 20 over the profiles) unless stated",
 		"shapes that reproduce recorded legacy-era findings are kept out of the default workload (DESIGN.md appendix A)",
 	}, spec.Assume...)
 	var jobs []orch.Job
@@ -204,9 +204,17 @@ func seedsFor(c *Ctx, quick, thorough int) []int64 {
 func stdProfiles(c *Ctx, quick, thorough int, feats ...string) []modelParams {
 	var ps []modelParams
 	for i, s := range seedsFor(c, quick, thorough) {
-		ps = append(ps, modelParams{Seed: s, Profile: "mixed", Late: i%3 == 2, Features: feats})
+		ps = append(ps, modelParams{Seed: s, Profile: "mixed", Late: i%3 == 2, Features: feats, Window: thoroughWindow(c, i)})
 	}
 	return ps
+}
+
+// thoroughWindow varies the (shortened) averaging window over the profiles of the thorough tier.
+func thoroughWindow(c *Ctx, i int) uint64 {
+	if !c.Thorough() {
+		return 0 // default 12
+	}
+	return []uint64{12, 8, 20, 12, 16, 6}[i%6]
 }
 
 func distinctWithPrefix(rs []*orch.Result, set, prefix string) []string {
@@ -231,7 +239,7 @@ func sumCounters(rs []*orch.Result, keys ...string) map[string]interface{} {
 func featProfiles(c *Ctx, quick, thorough int, lateEvery int, feats ...string) []modelParams {
 	var ps []modelParams
 	for i, s := range seedsFor(c, quick, thorough) {
-		ps = append(ps, modelParams{Seed: s, Profile: "mixed", Late: lateEvery > 0 && i%lateEvery == lateEvery-1, Features: feats})
+		ps = append(ps, modelParams{Seed: s, Profile: "mixed", Late: lateEvery > 0 && i%lateEvery == lateEvery-1, Features: feats, Window: thoroughWindow(c, i)})
 	}
 	return ps
 }
@@ -240,7 +248,7 @@ func init() {
 	registry["C03"] = func(c *Ctx) *orch.Outcome {
 		return runModelCheck(c, modelSpec{Level: "exploration",
 			Rule: "one evaluation = one well-signed batch (1..6 transactions, transfers and conversions mixed, amounts at balance-1 / balance / balance+1, several draws on one balance, self-credits, conversion then spending the converted asset, zero and 2^63-1 amounts) considered by the real daemon on top of an adaptively forged ledger; after the block every balance must equal the two-pass reference rule's prediction (executed completely or not at all), the recorded status must be the predicted one, and no balance column may be negative. Distinct non-trivial = (kind, verdict code, era) outcome classes observed.",
-			Profiles: func(c *Ctx) []modelParams { return featProfiles(c, 3, 24, 3, "c03") },
+			Profiles: func(c *Ctx) []modelParams { return featProfiles(c, 3, 64, 3, "c03", "c16") },
 			NonTrivial: func(rs []*orch.Result) (int64, map[string]interface{}) {
 				k := orch.UnionDistinct(rs, "outcome_classes")
 				ex := sumCounters(rs, "batch_outcomes_checked")
@@ -251,7 +259,7 @@ func init() {
 	registry["C07"] = func(c *Ctx) *orch.Outcome {
 		return runModelCheck(c, modelSpec{Level: "exploration",
 			Rule: "one evaluation = one conversion (all asset pairs of the era, amounts 1..balance incl. tiny ones, rates drifting every block) submitted at h; the reference rule holds it until the first later block with rates r and credits floor(in×S/D) with the rates of r (S=min(spot,avg), D=max(spot,avg) from PIP-10); compared with balances, recorded status height and recorded to_amount; additionally out×D_spot ≤ in×S_spot is asserted on the recorded amounts. Distinct non-trivial = conversions whose recorded amount was compared, of which those priced by an average ≠ spot are counted separately.",
-			Profiles: func(c *Ctx) []modelParams { return featProfiles(c, 3, 24, 2, "c07", "gaps", "avg-unavailable", "ungraded-snapshot") },
+			Profiles: func(c *Ctx) []modelParams { return featProfiles(c, 3, 64, 2, "c07", "gaps", "avg-unavailable", "ungraded-snapshot") },
 			NonTrivial: func(rs []*orch.Result) (int64, map[string]interface{}) {
 				ex := sumCounters(rs, "conversion_amounts_checked", "value_bounds_checked", "conversions_priced_by_average", "events_C07",
 					"unrated_blocks_with_conversions_waiting", "unrated_snapshot_blocks_from_v202_with_conversions_waiting", "waiting_batches_checked_in_unrated_blocks")
@@ -263,7 +271,7 @@ func init() {
 			Rule: "one evaluation = one block with an OPR set (0..65 records: valid, wrong version for the height, duplicates, outliers, unparsable payout addresses, one short of / exactly the winner count) and from 2.0 an SPR set (holders, non-holders, broken signatures, wrong versions) and a factoid block (burns and near-misses: two inputs, FCT outputs, foreign EC address, non-zero EC amount, after 2.0); the PEG / pFCT delta of every address must equal the payouts the grader library assigns to the winning records naming it (top-100 filter on the previous state) plus its valid burns, and each paid record must have exactly one coinbase row of that amount. Distinct non-trivial = (reward/burn event kind, era) pairs + coinbase rows compared.",
 			Assume: []string{"staking records whose staker id is claimed by a foreign key (recorded finding) run only in the tagged scenario"},
 			Profiles: func(c *Ctx) []modelParams {
-				ps := featProfiles(c, 3, 24, 3, "c11")
+				ps := featProfiles(c, 3, 64, 3, "c11")
 				ps = append(ps, modelParams{Seed: c.Seed*1000 + 600, Features: []string{"quiet", "spr-impostor"}})
 				ps = append(ps, modelParams{Seed: c.Seed*1000 + 601, Features: []string{"quiet", "oob-pre202"}})
 				return ps
@@ -282,7 +290,7 @@ func init() {
 		return runModelCheck(c, modelSpec{Level: "exploration",
 			Rule: "one evaluation = one block whose OPR and SPR winners agree, differ inside the band, sit one unit inside/outside its edge, or (from 2.0.2) differ beyond it for some assets; the pn_rate rows of the block must be exactly the rule's (winner[0] of each grade, band of the era, PEG by pricing phase from the previous state's supplies), a block without winners must have no rows and execute no held conversion, and rows of earlier heights must never change. Distinct non-trivial = rated blocks compared, per era.",
 			Assume: []string{"OPR outside the SPR band before 2.0.2 (recorded finding: the block returns early) runs only in the tagged scenario"},
-			Profiles: func(c *Ctx) []modelParams { return featProfiles(c, 3, 24, 3, "c12", "gaps", "ungraded-snapshot") },
+			Profiles: func(c *Ctx) []modelParams { return featProfiles(c, 3, 64, 3, "c12", "gaps", "ungraded-snapshot") },
 			NonTrivial: func(rs []*orch.Result) (int64, map[string]interface{}) {
 				ex := sumCounters(rs, "rated_blocks_compared", "rate_blocks_checked",
 					"unrated_blocks_with_conversions_waiting", "unrated_snapshot_blocks_from_v202_with_conversions_waiting", "waiting_batches_checked_in_unrated_blocks")
@@ -293,7 +301,7 @@ func init() {
 	registry["C13"] = func(c *Ctx) *orch.Outcome {
 		return runModelCheck(c, modelSpec{Level: "exploration",
 			Rule: "one evaluation = one conversion from a funded address into a destination of every class (pFCT, PEG, small-cap assets, ordinary assets), submitted at activation-3 … activation+2 of every activation; the admission rule of the statement decides executed / rejected(-2,-3,-4,-5) / dropped, compared with balances and recorded status. Distinct non-trivial = (verdict code, era) classes observed for conversions.",
-			Profiles: func(c *Ctx) []modelParams { return featProfiles(c, 3, 24, 0, "c13", "avg-unavailable") },
+			Profiles: func(c *Ctx) []modelParams { return featProfiles(c, 3, 64, 0, "c13", "avg-unavailable") },
 			NonTrivial: func(rs []*orch.Result) (int64, map[string]interface{}) {
 				k := distinctWithPrefix(rs, "outcome_classes", "conversion")
 				ex := sumCounters(rs, "batch_outcomes_checked")
@@ -305,17 +313,20 @@ func init() {
 		return runModelCheck(c, modelSpec{Level: "exploration",
 			Rule: "one evaluation = one snapshot height (every 144th block from 2.0): holders' PEG deltas must equal the allocation computed from min(previous snapshot, this snapshot) per non-PEG asset valued in pUSD at the rule's rates, capped at 4500×144 PEG with the dust rule; holders absent from either snapshot get nothing. Holder sets of 8–300 addresses with totals far below / exactly at / above the cap, ties, and movements between snapshots (out, in, round trip, new address). Distinct non-trivial = paying snapshots compared.",
 			Profiles: func(c *Ctx) []modelParams {
-				ps := featProfiles(c, 4, 32, 0, "c14", "quiet")
+				ps := featProfiles(c, 4, 64, 0, "c14", "quiet")
 				for i := range ps {
 					ps[i].Upto = 144*4 + 40
 					if ps[i].Seed%3 != 2 {
 						ps[i].Features = append(ps[i].Features, "small-ties", "whale-exit") // total stake decided by the c14 holders: below / around the cap
 					}
+					if i%2 == 1 {
+						ps[i].Features = append(ps[i].Features, "ungraded-snapshot") // snapshot heights without rates, before and after 2.0.2
+					}
 				}
 				return ps
 			},
 			NonTrivial: func(rs []*orch.Result) (int64, map[string]interface{}) {
-				ex := sumCounters(rs, "snapshot_blocks", "paying_snapshots", "holders_paid", "snapshots_at_cap", "events_C14")
+				ex := sumCounters(rs, "snapshot_blocks", "paying_snapshots", "holders_paid", "snapshots_at_cap", "events_C14", "snapshots_with_unpriced_held_assets", "unpriced_holder_asset_pairs")
 				return orch.SumCounter(rs, "paying_snapshots"), ex
 			}, Min: 4})
 	}
@@ -325,7 +336,7 @@ func init() {
 			Assume: []string{"the developer and mint tables and the special addresses are copied literally into the lab; the thorough tier adds a chain with the literal mainnet activation heights (206421–295500, mostly empty blocks, real 288 window)",
 				"alignments with V20DevRewards % 144 < 62 hit recorded mock-txid collisions; % 144 == 0 is run as a tagged scenario"},
 			Profiles: func(c *Ctx) []modelParams {
-				ps := featProfiles(c, 4, 40, 0, "c15", "quiet")
+				ps := featProfiles(c, 4, 64, 0, "c15", "quiet")
 				for i := range ps {
 					ps[i].AlignV20Dev = -1
 				}
@@ -361,19 +372,19 @@ func init() {
 			Rule: "one evaluation = one rated block of the bank era with 0..40 PEG requests (equal amounts, totals around bank-1 / bank / bank+1, far below, far above; piled up over ungraded blocks; before and after the V4 switch): yields must be full when the total fits and floor(req×bank/total)+dust otherwise, refunds the back-conversion of the unfilled part, the pn_bank row (bank, used, requested); balances, recorded yield and bank row are compared. Distinct non-trivial = bank blocks with requests (oversubscribed ones counted).",
 			Assume: []string{"batches mixing a PEG request with other transactions are a recorded finding and are not generated here"},
 			Profiles: func(c *Ctx) []modelParams {
-				ps := featProfiles(c, 4, 32, 0, "c16", "quiet")
+				ps := featProfiles(c, 4, 64, 0, "c16", "quiet")
 				ps = append(ps, modelParams{Seed: c.Seed*1000 + 650, Features: []string{"quiet", "bank-mixed-conversion"}, Upto: 110})
 				return ps
 			},
 			NonTrivial: func(rs []*orch.Result) (int64, map[string]interface{}) {
-				ex := sumCounters(rs, "bank_rows_checked", "bank_blocks_with_requests", "oversubscribed_bank_blocks", "events_C16")
+				ex := sumCounters(rs, "bank_rows_checked", "bank_blocks_with_requests", "oversubscribed_bank_blocks", "events_C16", "peg_requests_allotted_zero_with_refund")
 				return orch.SumCounter(rs, "bank_blocks_with_requests") + orch.SumCounter(rs, "events_C16")/3, ex
 			}, Min: 10})
 	}
 	registry["C04"] = func(c *Ctx) *orch.Outcome {
 		return runModelCheck(c, modelSpec{Level: "exploration",
 			Rule: "one evaluation = one block applied by the real daemon; per asset, the observed change of total supply must equal the sum of the block's issuance/destruction events (mining, staking, holder and developer payouts, FCT burns, conversions, bank yield/refund, burn-address transfers, one-time adjustments) computed by the reference rules, and every address/asset balance must equal the prediction (so nobody outside the block's events changes; a transfer's debit equals its credits). Distinct non-trivial = (event kind, era) pairs observed.",
-			Profiles: func(c *Ctx) []modelParams { return stdProfiles(c, 3, 24, "busy") },
+			Profiles: func(c *Ctx) []modelParams { return stdProfiles(c, 3, 64, "busy") },
 			NonTrivial: func(rs []*orch.Result) (int64, map[string]interface{}) {
 				k := orch.UnionDistinct(rs, "event_kinds")
 				return int64(len(k)), map[string]interface{}{"event_kind_era_pairs": k, "supply_deltas_checked": orch.SumCounter(rs, "supply_deltas_checked")}
